@@ -27,7 +27,13 @@ def run_one(name):
         args = ["patch", "-p1", "-s", "-d", scratch, "-i", os.path.join(d, "patch.diff")]
         if meta.get("reverse"):
             args.insert(1, "-R")
-        subprocess.check_call(args)
+        pr = subprocess.run(args, stdout=subprocess.PIPE, stderr=subprocess.STDOUT, text=True)
+        if pr.returncode != 0:
+            # the patch no longer applies to /repo (e.g. after a fix: commit): every expectation of
+            # this entry counts as failed until the patch is rebased
+            return [(chk["property"], chk["expect"], False, -1,
+                     ["PATCH DOES NOT APPLY: " + pr.stdout.strip().splitlines()[0][:100]])
+                    for chk in meta["checks"]]
         results = []
         for chk in meta["checks"]:
             env = dict(os.environ, FIR_REPO=scratch, FIR_EVIDENCE_DIR=evdir)
